@@ -225,6 +225,8 @@ var menu = []string{
 	"a b/c$d:1|c", "bad line", "", "_e{2,3}:ti|txt|#et", "a:4|c|#host:hh,x", "a:1|c|#x,host:h2,host:h3", "g:9|g|#host:hh",
 	// lines rejected only after their tags were read, and an event without tags of its own
 	"a:zz|c|#t1,t2", "a:1|c|#t3|@0", "_e{1,1}:x|y", "_e{1,1}:x|y|#t4|p:bogus",
+	// the same names under another tag set, sampled (first datapoint of a new series of an existing name)
+	"t:3|ms|#x|@0.5", "a:6|c|#y|@0.25", "s:m3|s|#x",
 }
 
 func structured() {
